@@ -4,6 +4,7 @@ package main
 
 import (
 	"bytes"
+	"sort"
 	"crypto"
 	_ "crypto/md5"
 	_ "crypto/sha1"
@@ -91,8 +92,40 @@ func keyLen(g *hx.Gen, a halg) int {
 	}
 }
 
+func statPairs(g *hx.Gen, feats []string) {
+	seen := map[string]bool{}
+	var fl []string
+	for _, f := range feats {
+		if !seen[f] {
+			seen[f] = true
+			fl = append(fl, f)
+		}
+	}
+	sort.Strings(fl)
+	for x := range fl {
+		g.Stat("feat." + fl[x])
+		for y := x + 1; y < len(fl); y++ {
+			g.Stat("pair." + fl[x] + "+" + fl[y])
+		}
+	}
+}
+
 func gen(g *hx.Gen) {
 	r := g.R
+	// the hash-id tables: every id, every crypto.Hash value (incl. unregistered / out-of-range ones)
+	for id := 0; id < 256; id++ {
+		g.Emit("ids id=%d", id)
+	}
+	for h := 0; h <= 30; h++ {
+		g.Emit("hid h=%d", h)
+	}
+	g.Stat("table.count-byte=256/256")
+	g.Stat("table.hash-id=256/256")
+	modeHit, hashHit := map[int]bool{}, map[string]bool{}
+	defer func() {
+		g.Stat(fmt.Sprintf("table.parse-mode-arm=%d/4", len(modeHit)))
+		g.Stat(fmt.Sprintf("table.parse-hash-entry=%d/7", len(hashHit)))
+	}()
 	// the complete count table and the encoder at every decoded value ±1
 	for c := 0; c < 256; c++ {
 		g.Emit("dc c=%d", c)
@@ -147,6 +180,9 @@ func gen(g *hx.Gen) {
 		case k < 11: // Parse + derive
 			pw := passphrase(g)
 			kl := keyLen(g, a)
+			if r.Chance(1, 12) {
+				kl = 0
+			}
 			mode := r.PickInt(0, 1, 3, 3, 3, 3)
 			hid := a.id
 			spec := []byte{byte(mode), hid}
@@ -155,22 +191,50 @@ func gen(g *hx.Gen) {
 				spec = append(spec, r.Bytes(8)...)
 			case 3:
 				spec = append(spec, r.Bytes(8)...)
-				spec = append(spec, pickCountByte(g, (kl+a.size-1)/a.size))
+				cb := pickCountByte(g, (kl+a.size-1)/a.size)
+				if r.Chance(1, 5) { // passphrase longer than the count: "at least one full pass"
+					pw = r.Bytes(r.PickInt(1017, 1100, 1500, 2000))
+					cb = byte(r.Intn(16))
+				}
+				spec = append(spec, cb)
 			}
+			feat := []string{fmt.Sprintf("mode%d", mode), a.name}
+			if kl > a.size {
+				feat = append(feat, "multi-context")
+			}
+			if kl == 0 {
+				feat = append(feat, "zero-key")
+			}
+			if len(pw) == 0 {
+				feat = append(feat, "empty-pw")
+			}
+			if mode == 3 && len(pw)+8 > s2kDecode(spec[10]) {
+				feat = append(feat, "pw-longer-than-count")
+			}
+			if mode == 3 && s2kDecode(spec[10])%(len(pw)+8) == 0 {
+				feat = append(feat, "count-exact-multiple")
+			}
+			modeHit[mode], hashHit[a.name] = true, true
 			switch r.Intn(16) {
 			case 0: // unsupported hash id
 				spec[1] = byte(r.PickInt(0, 4, 5, 6, 7, 12, 13, 14, 100, 255))
 				g.Stat("parse.bad-hash")
+				feat = append(feat, "bad-hash")
 			case 1: // unsupported mode (2 = reserved, 100..110 = private/GNU)
 				spec[0] = byte(r.PickInt(2, 4, 100, 101, 110, 255))
 				g.Stat("parse.bad-mode")
+				feat = append(feat, "bad-mode")
+				modeHit[-1] = true
 			case 2: // truncated
 				spec = spec[:r.Intn(len(spec))]
 				g.Stat("parse.truncated")
+				feat = append(feat, "truncated")
 			case 3: // trailing bytes stay unread
 				spec = append(spec, r.Bytes(r.Range(1, 5))...)
 				g.Stat("parse.trailing")
+				feat = append(feat, "trailing")
 			}
+			statPairs(g, feat)
 			g.Stat(fmt.Sprintf("parse.mode%d", mode))
 			g.Emit("ps spec=%s pw=%s len=%d", hx.Hex(spec), hx.Hex(pw), kl)
 		case k < 16: // direct calls, arbitrary salt lengths and counts
@@ -233,6 +297,24 @@ func cfgOf(o hx.Op, a *halg) *s2k.Config {
 func exec(line string) string {
 	o := hx.Parse(line)
 	switch o.Cmd {
+	case "ids":
+		id := byte(o.Int("id"))
+		h, ok1 := s2k.HashIdToHash(id)
+		name, ok2 := s2k.HashIdToString(id)
+		hs, ns := "-", "-"
+		if ok1 {
+			hs = strconv.Itoa(int(h))
+		}
+		if ok2 {
+			ns = name
+		}
+		return "hash=" + hs + " name=" + ns
+	case "hid":
+		id, ok := s2k.HashToHashId(crypto.Hash(o.Int("h")))
+		if !ok {
+			return "id=-"
+		}
+		return "id=" + strconv.Itoa(int(id))
 	case "dc":
 		return strconv.Itoa(s2k.VerifDecodeCount(uint8(o.Int("c"))))
 	case "ec":
